@@ -12,8 +12,6 @@ use crate::stream::Stream;
 use crate::user::User;
 use std::rc::Rc;
 
-#[derive(Derivative)]
-#[derivative(Debug(bound = "U: User"))]
 pub struct Project<U, E, G>
 where
     U: User,
@@ -21,7 +19,21 @@ where
     G: AnyGoal<U, E>,
 {
     variables: Vec<LTerm<U, E>>,
-    body: G,
+    // Body generator: builds the body goal for the projected values of the variables. The body
+    // is built anew for every state that reaches the operator, so that each state sees its own
+    // values.
+    body: Box<dyn Fn(Vec<LTerm<U, E>>) -> G>,
+}
+
+impl<U, E, G> std::fmt::Debug for Project<U, E, G>
+where
+    U: User,
+    E: Engine<U>,
+    G: AnyGoal<U, E>,
+{
+    fn fmt(&self, f: &mut std::fmt::Formatter<'_>) -> std::fmt::Result {
+        write!(f, "Project({:?})", self.variables)
+    }
 }
 
 impl<U, E, G> Project<U, E, G>
@@ -30,7 +42,10 @@ where
     E: Engine<U>,
     G: AnyGoal<U, E>,
 {
-    pub fn new(variables: Vec<LTerm<U, E>>, body: G) -> InferredGoal<U, E, G> {
+    pub fn new(
+        variables: Vec<LTerm<U, E>>,
+        body: Box<dyn Fn(Vec<LTerm<U, E>>) -> G>,
+    ) -> InferredGoal<U, E, G> {
         InferredGoal::new(G::dynamic(Rc::new(Project { variables, body })))
     }
 }
@@ -43,10 +58,12 @@ where
 {
     fn solve(&self, solver: &Solver<U, E>, state: State<U, E>) -> Stream<U, E> {
         // Walk* each projected variable with the current substitution
-        for v in self.variables.iter() {
-            v.project(|x| state.smap_ref().walk_star(x));
-        }
-        self.body.solve(solver, state)
+        let projected = self
+            .variables
+            .iter()
+            .map(|v| state.smap_ref().walk_star(v))
+            .collect();
+        (*self.body)(projected).solve(solver, state)
     }
 }
 
